@@ -12,7 +12,7 @@ Proof.
   - destruct (root =? 0); [intros [= <- <-] _; reflexivity | discriminate].
   - destruct (root =? 0); [intros [= <- <-] _; reflexivity|].
     destruct (d root) as [pg|] eqn:Ed; [|discriminate].
-    destruct (decode_wal_entries (Z.to_nat (lp_count pg)) (lp_payload pg)) as [es0|] eqn:Ee; [|discriminate].
+    destruct (decode_wal_entries_z (lp_count pg) (lp_payload pg)) as [es0|] eqn:Ee; [|discriminate].
     destruct (read_wal f d (lp_next pg)) as [[ids1 es1]|] eqn:Er; [|discriminate].
     intros [= <- <-] Hag. rewrite (Hag root) by (left; reflexivity). rewrite Ed, Ee.
     rewrite (IH d d' _ _ _ Er); [reflexivity|]. intros p Hp. apply Hag. right. exact Hp.
@@ -26,7 +26,7 @@ Proof.
   - destruct (root =? 0); [intros [= <- <-] _; reflexivity | discriminate].
   - destruct (root =? 0); [intros [= <- <-] _; reflexivity|].
     destruct (d root) as [pg|] eqn:Ed; [|discriminate].
-    destruct (decode_entries (Z.to_nat (lp_count pg)) (lp_payload pg)) as [es0|] eqn:Ee; [|discriminate].
+    destruct (decode_entries_z (lp_count pg) (lp_payload pg)) as [es0|] eqn:Ee; [|discriminate].
     destruct (read_freelist f d (lp_next pg)) as [[ids1 es1]|] eqn:Er; [|discriminate].
     intros [= <- <-] Hag. rewrite (Hag root) by (left; reflexivity). rewrite Ed, Ee.
     rewrite (IH d d' _ _ _ Er); [reflexivity|]. intros p Hp. apply Hag. right. exact Hp.
